@@ -43,7 +43,11 @@ type Step struct {
 // the source delivers the rest of Data in reads as large as requested and
 // then returns io.EOF. Once a step reported an error the source keeps
 // returning that error.
+// (Src.Wrap: the scripted source is handed to the library inside a standard wrapper — "bufio"
+// (*bufio.Reader, 4096), "bufio16" (*bufio.Reader, 16), "multi" (io.MultiReader), "limited"
+// (io.LimitedReader far above the data), "iotest-onebyte" — a caller may install any io.Reader.)
 type Src struct {
+	Wrap  string `json:"wrap,omitempty"`
 	Data  string `json:"d"`
 	Steps []Step `json:"st,omitempty"`
 }
@@ -75,9 +79,10 @@ type Op struct {
 	Lo int64 `json:"lo,omitempty"` // strrange: String() for every value in [Lo, Hi]
 	Hi int64 `json:"hi,omitempty"`
 
-	Keep bool `json:"k,omitempty"`   // retain the returned value and re-emit its digest at keepdump
-	Spin int  `json:"sp,omitempty"`  // conc mode: busy iterations before the call (start jitter)
-	Rep  int  `json:"rep,omitempty"` // >1: the call is made Rep times in a row; the first result is reported and, in Info, the first repetition whose result differs
+	Keep  bool `json:"k,omitempty"`     // retain the returned value and re-emit its digest at keepdump
+	Spin  int  `json:"sp,omitempty"`    // conc mode: busy iterations before the call (start jitter)
+	Reuse bool `json:"reuse,omitempty"` // the string argument is placed, if the allocator allows, at the address the previous call's string argument had (which is garbage by then)
+	Rep   int  `json:"rep,omitempty"`   // >1: the call is made Rep times in a row; the first result is reported and, in Info, the first repetition whose result differs
 }
 
 // Arg helpers -------------------------------------------------------------
